@@ -142,11 +142,15 @@ func (a *Adapter) amount(n int, v string) sdkmath.Int {
 
 func push2(v int) []byte { return []byte{0x61, byte(v >> 8), byte(v)} }
 
-// reentrantRuntime: slot0++ ; CALL(gas, target, 0, calldata) ; ignore the result ; STOP
+// reentrantRuntime: slot0++ ; on the FIRST invocation only: CALL(gas, target, 0, calldata), result ignored ; STOP
+// (re-entering once is enough to tell "effects twice" and keeps a broken implementation from recursing forever)
 func reentrantRuntime(target common.Address, calldata []byte) []byte {
 	var c []byte
-	c = append(c, 0x60, 0x00, 0x54, 0x60, 0x01, 0x01, 0x60, 0x00, 0x55)
-	const dataOff = 9 + 9 + 36
+	c = append(c, 0x60, 0x00, 0x54, 0x60, 0x01, 0x01, 0x80, 0x60, 0x00, 0x55) // v = slot0+1; slot0 = v
+	c = append(c, 0x60, 0x01, 0x14, 0x15)                                     // v != 1
+	const end, dataOff = 62, 64
+	c = append(c, push2(end)...)
+	c = append(c, 0x57) // JUMPI end
 	c = append(c, push2(len(calldata))...)
 	c = append(c, push2(dataOff)...)
 	c = append(c, 0x60, 0x00, 0x39)
@@ -154,10 +158,11 @@ func reentrantRuntime(target common.Address, calldata []byte) []byte {
 	c = append(c, push2(len(calldata))...)
 	c = append(c, 0x60, 0x00, 0x60, 0x00, 0x73)
 	c = append(c, target.Bytes()...)
-	c = append(c, 0x5a, 0xf1, 0x50, 0x00)
-	if len(c) != dataOff {
-		panic("assembler offset")
+	c = append(c, 0x5a, 0xf1, 0x50)
+	if len(c) != end {
+		panic(fmt.Sprintf("assembler offset %d", len(c)))
 	}
+	c = append(c, 0x5b, 0x00)
 	return append(c, calldata...)
 }
 
